@@ -256,14 +256,29 @@ fn call_cases(ctx: &Ctx) -> Vec<(Case, bool)> {
         }
         let mut body: Vec<Stmt> = params.iter().map(|p| pv(p.clone())).collect();
         if *rest {
-            // The rest list is fresh: writing to it changes nothing else.
+            // The rest list is fresh: writing into it changes nothing else.
+            body.push(if_(bin(Op::Ne, var("more"), list(vec![])), vec![assign(index(var("more"), int(0)), int(99))], None));
             body.push(assign(var("more"), bin(Op::Sum, var("more"), list(vec![int(0)]))));
         }
-        let stmts = vec![
-            fn_decl("f", params, *rest, body),
-            expr_stmt(call_items(var("f"), args.clone())),
-            pv(string("returned")),
-        ];
+        // Spread arguments are variables, so that the caller can look at them
+        // after the call.
+        let mut pre = vec![];
+        let mut post = vec![];
+        let args2: Vec<Item> = args.iter().enumerate().map(|(i, a)| {
+            if a.spread {
+                let nm = format!("sp{i}");
+                pre.push(declare(var(&nm), a.e.clone()));
+                post.push(pv(var(&nm)));
+                spread(var(&nm))
+            } else {
+                a.clone()
+            }
+        }).collect();
+        let mut stmts = pre;
+        stmts.push(fn_decl("f", params, *rest, body));
+        stmts.push(expr_stmt(call_items(var("f"), args2)));
+        stmts.push(pv(string("returned")));
+        stmts.extend(post);
         let spreads = args.iter().filter(|a| a.spread).count();
         ctx.label(if spreads > 0 { "call with spread arguments" } else { "call with plain arguments" });
         mk_case(ctx, "call", stmts, format!("{n} argument values in {} arguments ({spreads} spread) against arity {arity}{}", args.len(), if *rest { " + rest" } else { "" }), spreads > 0 || *rest)
